@@ -9,7 +9,9 @@ SoundFacts == Sound(Facts)          \* opcodes whose memory growth is charged, p
 \* words; MemCost: 1 -> 3, 2 -> 6, 32 -> 98, 724 -> 3195, 1024 -> 5120
 SizesSmall == {0, 1, 2, 32, 1024}
 SizesBig   == {0, 1, 2, 31, 32, 33, 724, 1024}
+Const1     == {0}
 Const2     == {0, 3}
+Other1     == {0}
 Other2     == {0, 8}
 Gives2     == {0, 100, 3500}
 Gives3     == {0, 100, 3500, 6000}
